@@ -44,7 +44,7 @@ struct Tok { id: Vec<u8>, kind: &'static str, tm: VMAddress, token: Option<Vec<u
 struct W {
     w: World, its: VMAddress, gw: VMAddress, gas: VMAddress, owner: VMAddress, operator: VMAddress, relayer: VMAddress,
     users: Vec<VMAddress>, dest: VMAddress, pool: Pool, tab: SigTab, set: SSet, domain: Vec<u8>, now: u64,
-    steps: Vec<Value>, pend: Vec<Pend>, next_id: u64, next_tm: u8, msg: u64, toks: Vec<Tok>, paused: bool, proposed: Option<(VMAddress, VMAddress)>,
+    steps: Vec<Value>, pend: Vec<Pend>, next_id: u64, next_tm: u8, msg: u64, toks: Vec<Tok>, paused: bool, proposed: Option<(VMAddress, VMAddress)>, last_in: Option<(Vec<u8>, Vec<u8>, Vec<u8>, Vec<u8>)>,
 }
 
 impl W {
@@ -109,7 +109,7 @@ impl W {
 pub fn run(seed: u64, ntraces: usize) {
     let mut r = Rng::new(seed ^ 0x175);
     for t in 0..ntraces {
-        let d = t % 14;      // which directed schedule opens the trace
+        let d = t % 15;      // which directed schedule opens the trace
         let mut w = World::new();
         let owner = user_addr(1); let operator = user_addr(2); let relayer = user_addr(3);
         let users = vec![user_addr(4), user_addr(5), user_addr(6)]; let dest = user_addr(7);
@@ -141,7 +141,7 @@ pub fn run(seed: u64, ntraces: usize) {
             "tracked": tracked, "funds": all.iter().map(|u| json!([hx(u.as_bytes()), "2000000000000000000", [[hx(&tok), "1000000"], [hx(&tok2), "1000000"]]])).collect::<Vec<_>>(),
             "res": st.json});
         let mut g = W { w, its: its.clone(), gw: gw.clone(), gas: gas.clone(), owner: owner.clone(), operator: operator.clone(), relayer: relayer.clone(), users: users.clone(), dest: dest.clone(),
-            pool, tab: SigTab(vec![]), set, domain, now, steps: vec![], pend: vec![], next_id: 0, next_tm: 0, msg: 0, toks: vec![], paused: false, proposed: None };
+            pool, tab: SigTab(vec![]), set, domain, now, steps: vec![], pend: vec![], next_id: 0, next_tm: 0, msg: 0, toks: vec![], paused: false, proposed: None, last_in: None };
 
         let mut script: Vec<u64> = vec![];
         // --- directed schedules (every 10th trace): the recorded findings F-C08-1 and F-C17-2
@@ -238,6 +238,9 @@ pub fn run(seed: u64, ntraces: usize) {
                     for sh in [9u64, 8, 0, 1, 2] { for ch in 0..4u64 { script.push(3000 + sh * 10 + ch); } }
                     for sh in [9u64, 8, 1] { for ch in 0..2u64 { script.push(3500 + sh * 10 + ch); } }
                 }
+                else if d == 14 {   // inbound deployment in two steps with the nominated minter calling the new manager directly in between
+                    script.extend([193u64, 45, 194, 23, 194, 45]);
+                }
                 else {              // d == 13: message-type words outside the known range, direct and hub-wrapped
                     for i in 0..6u64 { script.push(2000 + i); script.push(2100 + i); }
                 }
@@ -259,6 +262,13 @@ pub fn run(seed: u64, ntraces: usize) {
             // 1<a><vv>: inbound message kind a (6, 7, 8) in routing variant vv; 20<i> / 21<i>: message-type word i (direct / hub-wrapped); 3<shape><chain> / 35..: outbound transfer / call; 190..192: inbound link / deploy for an already bound token id (direct, hub-wrapped, deploy)
             let mut fvar: Option<u64> = None; let mut fbound: Option<u64> = None;
             let mut ftype: Option<u64> = None; let mut fshape: Option<(u64, u64)> = None;
+            let mut fdeploy = false;
+            if a == 194 { // step 2 of the last inbound message: the same execute call with the issue cost attached
+                if let Some((chain, id, src, payload)) = g.last_in.clone() {
+                    g.its_tx("execute", &g.relayer.clone(), "execute", vec![chain.clone(), id.clone(), src.clone(), payload.clone()], ISSUE_COST, &[],
+                        json!({"chain": hx(&chain), "id": hx(&id), "src": hx(&src), "payload": hx(&payload), "ph": hx(&keccak(&payload)), "label": "in8/step2"})); }
+                continue; }
+            let a = if a == 193 { fdeploy = true; fvar = Some(0); 8 } else { a };
             let a = if (190..=192).contains(&a) { fbound = Some(a - 190); fvar = Some(if a == 191 { 2 } else { 0 }); 8 }
                     else if a >= 3000 { let c = a - 3000; fshape = Some(((c % 500) / 10, c % 10)); if c >= 500 { 5 } else { 4 } }
                     else if a >= 2000 { let c = a - 2000; ftype = Some(c % 100); fvar = Some(if c >= 100 { 2 } else { 0 }); 6 }
@@ -338,7 +348,7 @@ pub fn run(seed: u64, ntraces: usize) {
                         6 => { let recipient = if r.chance(1, 10) { vec![1, 2, 3] } else if r.chance(1, 8) { g.toks.first().map(|t| t.tm.to_vec()).unwrap_or(g.dest.to_vec()) } else { r.pick(&g.users).to_vec() };
                                transfer_payload(&tid, b"0xsender", &recipient, amount, b"") }
                         7 => transfer_payload(&tid, b"0xsender", g.dest.as_bytes(), amount, b"with-data"),
-                        _ => if fbound == Some(2) { deploy_payload(&tid, b"Remote", b"RMT", 6, &[]) } else if fbound.is_none() && r.chance(2, 3) {
+                        _ => if fdeploy { deploy_payload(&r.bytes(32), b"Remote", b"RMT", 6, g.users[1].as_bytes()) } else if fbound == Some(2) { deploy_payload(&tid, b"Remote", b"RMT", 6, &[]) } else if fbound.is_none() && r.chance(2, 3) {
                                 let existing: Vec<&Tok> = g.toks.iter().filter(|t| t.kind == "remote-native").collect();
                                 let tid2 = if !existing.is_empty() && r.chance(2, 3) { existing[0].id.clone() } else { r.bytes(32) };
                                 let minter = match r.below(3) { 0 => vec![], 1 => vec![9, 9], _ => r.pick(&g.users).to_vec() };
@@ -364,7 +374,8 @@ pub fn run(seed: u64, ntraces: usize) {
                     let approve = variant != 8;
                     if approve { let m = Msg { chain: chain.clone(), id: id.clone(), src: src.clone(), contract: g.its.to_vec(), ph: keccak(&payload) }; g.gw_approve(&m); }
                     let mut payload_x = payload.clone(); if r.chance(1, 15) { let n = payload_x.len() - 1; payload_x[n] ^= 1; }    // tampered after approval
-                    let reps = if a == 8 { 2 } else { 1 + r.below(2) };
+                    let reps = if fdeploy { 1 } else if a == 8 { 2 } else { 1 + r.below(2) };
+                    g.last_in = Some((chain.clone(), id.clone(), src.clone(), payload_x.clone()));
                     for k in 0..reps {
                         let egld = if a == 8 && k == 1 { ISSUE_COST } else { 0 };
                         let (ok, _, dep) = g.its_tx("execute", &g.relayer.clone(), "execute", vec![chain.clone(), id.clone(), src.clone(), payload_x.clone()], egld, &[],
@@ -458,14 +469,14 @@ pub fn run(seed: u64, ntraces: usize) {
                     else { g.its_tx("deployRemote", &deployer, "deployRemoteInterchainTokenWithMinter", vec![salt.clone(), minter.clone(), dchain.clone(), dm.clone()], 1000, &[],
                             json!({"salt": hx(&salt), "minter": hx(&minter), "dchain": hx(&dchain), "dminter": Some(hx(&dm))})); }
                 }
-                19 => { // a user's direct call into one of the token managers (roles, mint, burn, flow limit)
+                19 | 45 => { // a user's direct call into one of the token managers (roles, mint, burn, flow limit); 45: the nominated minter calls deployInterchainToken on the newest manager
                     if g.toks.is_empty() { continue; }
                     let ti = if scripted { g.toks.len() - 1 } else { r.below(g.toks.len() as u64) as usize };
                     let (tm, ttok, tminter) = (g.toks[ti].tm.clone(), g.toks[ti].token.clone(), g.toks[ti].minter.clone());
                     let role_holder = if tminter.len() == 32 && tminter != vec![0u8; 32] { VMAddress::new(tminter.clone().try_into().unwrap()) } else { g.operator.clone() };
-                    let caller = if scripted || r.chance(2, 3) { role_holder.clone() } else { anyone.clone() };
-                    let other = r.pick(&g.users).clone();
-                    let k = if scripted { 0 } else { r.below(15) };
+                    let caller = if a == 45 { g.users[1].clone() } else if scripted || r.chance(2, 3) { role_holder.clone() } else { anyone.clone() };
+                    let other = r.pick(&g.users).clone(); let mut egld = 0u64;
+                    let k = if a == 45 { 15 } else if scripted { 0 } else { r.below(16) };
                     let (top, ep, args, esdt): (Value, &str, Vec<Vec<u8>>, Vec<(Vec<u8>, u64, BigUint)>) = match k {
                         0 => (json!({"op": "transferMint", "a": hx(other.as_bytes())}), "transferMintership", vec![other.to_vec()], vec![]),
                         1 => (json!({"op": "proposeMint", "a": hx(other.as_bytes())}), "proposeMintership", vec![other.to_vec()], vec![]),
@@ -480,10 +491,14 @@ pub fn run(seed: u64, ntraces: usize) {
                         11 => (json!({"op": "removeFL", "a": hx(other.as_bytes())}), "removeFlowLimiter", vec![other.to_vec()], vec![]),
                         12 => { let b = r.pick(&g.users).clone(); (json!({"op": "transferFL", "a": hx(other.as_bytes()), "b": hx(b.as_bytes())}), "transferFlowLimiter", vec![other.to_vec(), b.to_vec()], vec![]) }
                         13 => { let v = 1 + r.below(20); (json!({"op": "give", "dest": hx(other.as_bytes()), "amount": v.to_string()}), "giveToken", vec![other.to_vec(), big(v)], vec![]) }   // not the service: refused
-                        _ => { let v = 1 + r.below(20); let e = vec![(ttok.clone().unwrap_or(tok.clone()), 0u64, bn(v))]; (json!({"op": "take"}), "takeToken", vec![], e) }
+                        14 => { let v = 1 + r.below(20); let e = vec![(ttok.clone().unwrap_or(tok.clone()), 0u64, bn(v))]; (json!({"op": "take"}), "takeToken", vec![], e) }
+                        _ => { // the manager's deployInterchainToken called directly (allowed to its minter, to retry a failed issuance)
+                            egld = ISSUE_COST; let mut marg = vec![1u8]; marg.extend_from_slice(caller.as_bytes());
+                            (json!({"op": "deployToken", "minter": hx(caller.as_bytes()), "name": hx(b"Rogue"), "symbol": hx(b"ROGUE")}), "deployInterchainToken", vec![marg, b"Rogue".to_vec(), b"ROGUE".to_vec(), vec![18]], vec![]) }
                     };
-                    let st = g.w.tx(&caller, &tm, ep, args, &bn(0), &esdt);
-                    let mut top = top; top["caller"] = json!(hx(caller.as_bytes())); top["now"] = json!(g.now); top["egld"] = json!("0");
+                    let st = g.w.tx(&caller, &tm, ep, args, &bn(egld), &esdt);
+                    if st.res.result_status == 0 { if let Some(ac) = &st.res.pending_calls.async_call { g.pend.push(Pend { id: g.next_id, kind: PKind::Issue(ac.clone(), ac.from.clone()) }); g.next_id += 1; } }
+                    let mut top = top; top["caller"] = json!(hx(caller.as_bytes())); top["now"] = json!(g.now); top["egld"] = json!(egld.to_string());
                     top["esdt"] = json!(esdt.iter().map(|(t, n, v)| json!([hx(t), n, v.to_string()])).collect::<Vec<_>>());
                     g.steps.push(json!({"op": {"op": "tm", "tma": hx(tm.as_bytes()), "top": top, "caller": hx(caller.as_bytes()), "now": g.now}, "res": st.json}));
                 }
